@@ -1,4 +1,4 @@
-import OrdModel.Proofs.IndexRunemint
+import OrdModel.Proofs.IndexRunemintChain
 /-!
 # C10 — Mint terms are enforced
 
@@ -92,5 +92,83 @@ theorem c10_mintable_iff (e : RuneEntry) (h a : Nat) :
 example : mintableE { exEntry with mints := 2 } 7 = .error (.cap 2) := by rfl
 example : mintableE exEntry 8 = .error (.end_ 8) := by rfl
 example : mintableE exEntry 5 = .error (.start 6) := by rfl
+
+
+/-! ### in the context of a block: invariant `RInv st H t` = "block `H` is being indexed, the
+transactions before index `t` are done" (`Proofs/IndexRunemintInv.lean`) -/
+
+/-- **Later-in-block / same-transaction / future ids are no-ops.**  While transaction `t` of
+block `H` is being indexed every existing id lies strictly before `(H, t)`; so a mint of
+`(H, t')` with `t' ≥ t` (this transaction's own etching or a later one) or of any id of a later
+block finds no entry and does nothing. -/
+theorem c10_mint_not_yet_etched_noop {st : State} {H t : Nat} (hinv : RInv st H t) (id : RuneId)
+    (hid : H < id.block ∨ (id.block = H ∧ t ≤ id.tx)) : mint st H id = (st, none) := by
+  apply mint_of_absent
+  cases hg : AL.get st.runeEntries id with
+  | none => rfl
+  | some e =>
+    have := (hinv.ids id e hg).2.2
+    unfold idBefore at this; omega
+
+/-- **The counter moves exactly when the documented condition holds, whatever the artifact.**
+After transaction `t` of block `H` (runestone *or cenotaph*) the entry of every rune that
+existed before the transaction is unchanged except that `mints` is one higher iff the
+transaction's artifact mints that id and the mint is open at `H`. -/
+theorem c10_tx_mint_counter {st : State} {H t : Nat} (hinv : RInv st H t) (blk : Block) (tx : Tx)
+    (bb : Balances) (st' : State) (bb' : Balances) (evs : List Event) (hH : blk.height = H)
+    (ht : t < 2 ^ 32) (hr : indexRunesTx st blk t tx bb = .ok (st', bb', evs))
+    (id : RuneId) (e : RuneEntry) (hg : AL.get st.runeEntries id = some e) :
+    AL.get st'.runeEntries id =
+      some (if txMint tx = some id ∧ mintOpen e H = true then { e with mints := e.mints + 1 } else e) := by
+  have hne : id ≠ ⟨H, t⟩ := by
+    intro heq
+    have := (hinv.ids id e hg).2.2
+    rw [heq] at this; unfold idBefore at this; simp at this
+  have := (tx_step hinv blk tx bb st' bb' evs hH (by simpa using ht) hr).2.1 id hne
+  rw [this, hg]; rfl
+
+/-- **A mint in a cenotaph still counts toward the cap.** -/
+theorem c10_cenotaph_mint_counts {st : State} {H t : Nat} (hinv : RInv st H t) (blk : Block) (tx : Tx)
+    (bb : Balances) (st' : State) (bb' : Balances) (evs : List Event) (hH : blk.height = H)
+    (ht : t < 2 ^ 32) (hr : indexRunesTx st blk t tx bb = .ok (st', bb', evs))
+    (r : Option Nat) (id : RuneId) (e : RuneEntry) (hart : tx.artifact = some (.cenotaph r (some id)))
+    (hg : AL.get st.runeEntries id = some e) (ho : mintOpen e H = true) :
+    AL.get st'.runeEntries id = some { e with mints := e.mints + 1 } := by
+  rw [c10_tx_mint_counter hinv blk tx bb st' bb' evs hH ht hr id e hg]
+  simp [txMint, hart, artMint, ho]
+
+/-- **Invariant, one block.**  `indexRunesBlock` preserves `RInv`, whose `cap` clause says
+`mints ≤ cap` for every rune with terms and `mints = 0` for every rune without. -/
+theorem c10_block_preserves {st : State} {H : Nat} (hinv : RInv st H 0) (blk : Block) (st' : State)
+    (evs : List Event) (hH : blk.height = H) (hlen : blk.txs.length ≤ 2 ^ 32)
+    (hr : indexRunesBlock st blk = .ok (st', evs)) :
+    RInv st' (H + 1) 0 ∧
+    ∀ id e, AL.get st'.runeEntries id = some e → e.mints ≤ capOf e ∧ (e.terms = none → e.mints = 0) := by
+  have h := block_inv hinv blk st' evs hH (by simpa using hlen) hr
+  exact ⟨h, h.cap⟩
+
+/-- **The mint count never exceeds the cap** in any state reachable by indexing a chain of
+consecutive blocks.  `_partial`: for configurations that also run the sat / inscription /
+address indexer the statement assumes `UtxoFrame cfg` (that part of the block does not touch the
+rune tables); for a rune-only index (`FrameOK` by its first disjunct) it is unconditional —
+`c10_mints_le_cap_rune_only`. -/
+theorem c10_mints_le_cap_partial (cfg : Cfg) (hfr : FrameOK cfg) (chain : List Block) (st : State)
+    (evs : List Event) (hr : run cfg chain = .ok (st, evs)) (hc : ChainOK chain)
+    (id : RuneId) (e : RuneEntry) (hg : AL.get st.runeEntries id = some e) :
+    e.mints ≤ (e.terms.bind (·.cap)).getD 0 ∧ (e.terms = none → e.mints = 0) :=
+  (run_inv cfg hfr chain st evs hr hc).cap id e hg
+
+theorem c10_mints_le_cap_rune_only (cfg : Cfg)
+    (hcfg : cfg.indexInscriptions = false ∧ cfg.indexAddresses = false ∧ cfg.indexSats = false)
+    (chain : List Block) (st : State) (evs : List Event) (hr : run cfg chain = .ok (st, evs))
+    (hc : ChainOK chain) (id : RuneId) (e : RuneEntry) (hg : AL.get st.runeEntries id = some e) :
+    e.mints ≤ (e.terms.bind (·.cap)).getD 0 ∧ (e.terms = none → e.mints = 0) :=
+  c10_mints_le_cap_partial cfg (Or.inl (by simp [hcfg.1, hcfg.2.1, hcfg.2.2])) chain st evs hr hc id e hg
+
+example : RInv {} 0 0 := RInv_empty 0 0
+example : ChainOK [⟨0, 0, 0, 0, []⟩, ⟨1, 0, 0, 0, []⟩] := by
+  intro i hi
+  have : i = 0 ∨ i = 1 := by simp at hi; omega
+  rcases this with rfl | rfl <;> simp
 
 end Ord.Index.Runemint
